@@ -20,6 +20,8 @@ def pick_model(seed, idx, features=None, size="s", opt=None, curated_p=0.25, acc
         spec["opt"]["iterations"] = 100
     else:
       spec = models.generate(_rng.mix(seed, idx, t), features=features, size=size, opt=opt, accept=accept)
+    if r.random() < 0.5:
+      spec["mopt"] = models.random_mopt(_rng.mix(seed, idx, t, "m"))
     try:
       mjm, m = core.make_model(spec)
     except (NotImplementedError, ValueError):
@@ -33,7 +35,8 @@ def pick_model(seed, idx, features=None, size="s", opt=None, curated_p=0.25, acc
 
 def opt_key(spec):
   o = spec.get("opt") or {}
-  return f"{o.get('solver', 'newton')}/{o.get('cone', 'pyramidal')}/{o.get('jacobian', 'auto')}/{o.get('integrator', 'euler')}"
+  bp = (spec.get("mopt") or {}).get("broadphase", 0)
+  return f"{o.get('solver', 'newton')}/{o.get('cone', 'pyramidal')}/{o.get('jacobian', 'auto')}/{o.get('integrator', 'euler')}/bp{bp}"
 
 
 def bucket(n):
